@@ -155,7 +155,14 @@ class _BaseLayout(MaildirLayout[_MaildirT], metaclass=ABCMeta):
     def _split(cls, name: str, delimiter: str) -> _Parts:
         if name == 'INBOX':
             return []
-        return name.split(delimiter)
+        parts = name.split(delimiter)
+        for part in parts:
+            # Every part becomes (part of) a directory name below the inbox,
+            # it must not be able to refer to anything outside of it.
+            if part in ('', '.', '..') or '\0' in part or os.sep in part \
+                    or (os.altsep is not None and os.altsep in part):
+                raise FileNotFoundError(name)
+        return parts
 
     @classmethod
     def _join(cls, parts: _Parts, delimiter: str) -> str:
